@@ -28,9 +28,18 @@ WATCH = (os.path.join(runner.REPO, 'clastic') + os.sep, '<sinter', '<sim chain')
 # ---------------------------------------------------------------------------
 # generation (validity rules V1-V3 of DESIGN.md 3.1)
 
+HAZARD_NAMES = ['funcs', 'endpoint', 'render', 'resp', 'BaseResponse', 'process_request', 'inject', 'ret', 'route', 'kwargs',
+                '__traceback_hide__', 'code', 'env', 'chain']
+
+
 def gen_config(rng):
     names = list('abcdefgh')
     rng.shuffle(names)
+    if rng.random() < 0.35:
+        # ordinary identifiers that happen to be spelled like names the framework's generated glue code uses itself
+        for i, hz in enumerate(rng.sample(HAZARD_NAMES, rng.randint(1, 3))):
+            names[rng.randrange(len(names))] = hz
+        names = sorted(set(names), key=names.index)
     url = names[:rng.randint(0, 2)]
     rest = names[len(url):]
     res = rest[:rng.randint(0, 2)]
@@ -316,6 +325,10 @@ def declared(cfg, fname):
     return list(f['req']) + list(f['opt']) + list(f['kwreq']) + list(f['kwopt'])
 
 
+def declared_of(f):
+    return list(f['req']) + list(f['opt']) + list(f['kwreq']) + list(f['kwopt'])
+
+
 def ALL_PROVIDED(cfg):
     return set(p for m in cfg['mws'] for f in m['funcs'].values() for p in f['provides'])
 
@@ -350,7 +363,7 @@ class C02(Check):
     level_note = 'Trusted: the resolver (~40 lines from the property text), generator validity rules V1-V3.'
     required_probes = ('embedded-in-parent-offering-more-names', 'decoy-route-binding-named-like-resource', 'positional-next-multi', 'render-error-injected', 'optional-got-offered-value', 'kwonly-got-offered-value', 'null-route-defaults', 'concurrent-batch',
                        'kind-lambda', 'kind-callable', 'kind-classmethod', 'kind-decorated', 'multi-url-value',
-                       'default-for-name-provided-elsewhere', 'optional-url-binding-absent', 'optional-url-binding-zero', 'optional-url-binding-present', 'url-value-zero', 'multi-url-binding-empty')
+                       'name-spelled-like-generated-code-identifier', 'default-for-name-provided-elsewhere', 'optional-url-binding-absent', 'optional-url-binding-zero', 'optional-url-binding-present', 'url-value-zero', 'multi-url-binding-empty')
 
     def generate(self, seed, tier):
         S = Streams(seed)
@@ -393,6 +406,9 @@ class C02(Check):
             res.probe('decoy-route-binding-named-like-resource')
         if cfg.get('parent'):
             res.probe('embedded-in-parent-offering-more-names')
+        used = set(p for m in cfg['mws'] for f in m['funcs'].values() for p in declared_of(f)) | set(declared_of(cfg['ep'])) | set(declared_of(cfg['rn']))
+        if used & set(HAZARD_NAMES):
+            res.probe('name-spelled-like-generated-code-identifier')
         RT.reset({})
         for m in cfg['mws']:
             for ph, f in m['funcs'].items():
